@@ -5,6 +5,7 @@
   activation and puts the caller's activation back.
 -/
 import Nlmodel.Model.Pipeline
+import Nlmodel.Proofs.Lemmas.SimFnAll
 namespace Nl
 namespace C12
 open Spec
@@ -133,6 +134,26 @@ theorem C12_early_return (f : Nat) (fe : RExpr) (as : RExprs) (st st1 st2 st3 : 
     evalE (f + 1) (.call fe as) st = .val v { st3 with lenv := st2.lenv } := by
   have : ¬ xs.length > nl := by omega
   simp [evalE, ha, hf, this, hb]
+
+/-! ### whole calls on the machine (stage 4 of the simulation, `Proofs/Lemmas/SimFn*`) -/
+
+/-- A CALL EXPRESSION, END TO END ON THE MACHINE: in any frame `below ++ locs ++ ops` with any suspended
+    callers `fr`, for a call `f(a₁..aₙ)` of the stage-4 fragment: if the definitional semantics
+    (arguments left to right, then the callee, parameters bound by position, fresh activation, the
+    caller's activation put back) gives the value `v`, the machine reaches the instruction after
+    the `Call` in the SAME frame — `below` untouched, the caller's locals holding what the semantics'
+    restored activation holds, `ops` with exactly `v` pushed, the same suspended callers — whatever
+    the callee did in between (recursion, nested calls, early `antwoord`, loops); errors are matched
+    by errors, and the only other possibility is the machine's stack/frame limit.  Instance of
+    `SimF.pall` for expressions. -/
+theorem C12_call_simulation (W : SimF.World) (hW : SimF.WOK W) (f : Nat) (nl : Nat) (fn : Bool) (Γ Γx Λ : Sim.Gam) (ab : Bool)
+    (fe : RExpr) (as : RExprs) (hx : SimF.YE nl fn Γ Λ ab (.call fe as))
+    (st : SState) (pos : Nat) (lp : LoopCtx) (cs : List Const) (below : Array Value) (fr : List Frame) (locs ops g : Array Value) (l : Value)
+    (hsc : SimF.Sc W fn Γ Γx Λ) (hinv : SimF.Inv W (SimF.bigScope fn Γ Γx) Λ nl st locs g l)
+    (hcode : Sim.CodeAt W.C pos (emitE (.call fe as) pos lp cs).1) (hpool : Sim.PoolOK W.s0.cvals (emitE (.call fe as) pos lp cs).2) :
+    SimF.GoalV W (SimF.bigScope fn Γ Γx) Λ nl below fr fn ab lp pos locs ops g l (pos + sizeE (.call fe as)) ops st
+      (evalE f (.call fe as) st) :=
+  (SimF.pall hW f).e nl fn Γ Γx Λ ab (.call fe as) hx st pos lp cs below fr locs ops g l hsc hinv hcode hpool
 
 end C12
 end Nl
